@@ -23,7 +23,7 @@ pub const ASSUMPTIONS: &[&str] = &[
     "patterns reported missing are parsed back by a small parser in the harness; with integer/byte-array literal columns the checker reports `_` by design, so only the weak form (some denoted value is unmatched) is asserted there, the strong form (every denoted value is unmatched) otherwise",
 ];
 
-pub const RULE: &str = "scrutinee types: Bool, Int, ByteArray, Option<Bool>, Option<Int>, a 3-constructor data type, a record, lists of those, tuples, pairs, nested to depth 2; 1-5 clauses of freely generated patterns (constructors positional/labelled/with `..`, literals, `[]` / `[a, b]` / `[a, ..rest]` / `[_, ..]`, variables, discards, `as`). Non-trivial (checker half) = at least 2 clauses, one of them with a nested constructor/list/literal pattern below a constructor, tuple or list; (run-time half) = a value that two or more clauses match. Distinct by (type, clause list) resp. (type, clause list, value).";
+pub const RULE: &str = "scrutinee types: Bool, Int, ByteArray, Option<Bool>, Option<Int>, a 3-constructor data type, a record, lists of those, tuples, pairs, nested to depth 2; 1-5 clauses of freely generated patterns (constructors positional/labelled/with `..`, literals, `[]` / `[a, b]` / `[a, ..rest]` / `[_, ..]`, variables, discards, `as`). Also single patterns in `let P = x` and in argument position, accepted iff the pattern matches every enumerated value. Non-trivial (checker half) = at least 2 clauses, one of them with a nested constructor/list/literal pattern below a constructor, tuple or list; (run-time half) = a value that two or more clauses match. Distinct by (type, clause list) resp. (type, clause list, value).";
 
 pub const KNOWN_PERMUTED: &str = "first-match:bindings-permuted-under-open-list-clause";
 
@@ -635,9 +635,69 @@ fn judge_matrix(src: &mut Src, st: &mut Stats) -> CheckResult {
     Ok(())
 }
 
+/// `let P = x`: a single pattern must be irrefutable (match every value of the type) to be accepted.
+fn judge_let(src: &mut Src, st: &mut Stats) -> CheckResult {
+    st.eval();
+    let m = universe();
+    let tys = scrutinee_types();
+    // tuples and pairs twice as often: they have one shape, all refutability is in the components
+    let composite: Vec<Ty> = tys.iter().filter(|t| matches!(t, Ty::Tuple(_) | Ty::Pair(..))).cloned().collect();
+    let ty = if src.chance(1, 2) && !composite.is_empty() { src.pick(&composite).clone() } else { src.pick(&tys).clone() };
+    let (p, _binds) = {
+        let mut g = PatGen { src, m: &m, fresh: 0, binds: vec![] };
+        let p = g.pat(&ty, 2);
+        (p, g.binds)
+    };
+    let pr = Printer::new(&m);
+    let as_argument = src.chance(1, 4) && matches!(p, Pat::Tuple(_) | Pat::Pair(..));
+    let mut source = print_module(&m);
+    if as_argument {
+        source.push_str(&format!("pub fn f({}: {}) -> Int {{\n  0\n}}\n", pr.pat(&p), show_ty(&m, &ty)));
+    } else {
+        source.push_str(&format!("pub fn f(x: {}) -> Int {{\n  let {} = x\n  0\n}}\n", show_ty(&m, &ty), pr.pat(&p)));
+    }
+    let input = json!({"source": source});
+    let mut en = Enum { m: &m, ints: vec![], bytes: vec![], max_list: 0 };
+    collect_literals(&p, &mut en.ints, &mut en.bytes, &mut en.max_list);
+    en.ints.push(BigInt::from(77));
+    en.bytes.push(vec![0x77, 0x77, 0x77]);
+    let values = en.values(&ty, 4000);
+    let mut it = Interp::new(&m, u64::MAX);
+    let unmatched: Vec<&V> = values.iter().filter(|v| !it.matches(&p, v, &mut Env::default()).unwrap_or(false)).collect();
+    let irrefutable = unmatched.is_empty();
+    let verdict = no_panic(|| check_types(&source)).map_err(|pn| panic_failure("type-checker", pn, input.clone()))?;
+    let detail = |extra: serde_json::Value| json!({"input": input, "model": {"irrefutable": irrefutable, "values_enumerated": values.len(), "an_unmatched_value": unmatched.first().map(|v| show_v(&it, v, &ty))}, "checker": extra});
+    match &verdict {
+        Ok(()) => {
+            st.class("let:accepted");
+            if !irrefutable {
+                return Err(Failure::new("let-accepted-but-refutable", detail(json!("accepted"))));
+            }
+        }
+        Err(TypeError::NotExhaustivePatternMatch { unmatched: reported, .. }) => {
+            st.class("let:not-exhaustive");
+            if irrefutable {
+                return Err(Failure::new("let-rejected-although-irrefutable", detail(json!({"unmatched": reported}))));
+            }
+        }
+        Err(other) => {
+            st.class("let:other-error");
+            if std::env::var("VERIF_SHOW_REJECTS").is_ok() {
+                eprintln!("{source}\n{other:?}");
+            }
+            return Ok(());
+        }
+    }
+    if nested(&p) {
+        st.nontrivial(&(source.as_str(), "let"));
+    }
+    Ok(())
+}
+
 pub fn run(cx: &mut Cx) -> String {
     let tier = cx.tier;
     cx.shrink_iters = 300;
     cx.prop("clause-lists", tier.of(40_000, 1_000_000), 400, judge_matrix);
+    cx.prop("let-patterns", tier.of(30_000, 600_000), 200, judge_let);
     RULE.to_string()
 }
